@@ -65,8 +65,12 @@ def run_case(case, obs) -> None:  # noqa: C901
     dim = m.dim
     omega = np.block([[np.zeros((dim, dim)), np.identity(dim)], [-np.identity(dim), np.zeros((dim, dim))]])
 
+    # the start states have a past (cache populated elsewhere, then copied / pickled / deep-copied, then assigned): the
+    # step map must be the same symplectic map whatever the state object went through before
+    how = case.get("state_history") or ["fresh", "pickle", "copy", "deepcopy"][int(case["seed"][-1]) % 4]
+
     def psi(z):
-        st = m.state(z[:dim], z[dim:], 1)
+        st = m.used_state(z[:dim], z[dim:], 1, how)
         for _ in range(case["n"]):
             st = integ.step(st)
         return np.concatenate([st.pos, st.mom])
@@ -121,8 +125,9 @@ def run_case(case, obs) -> None:  # noqa: C901
         obs.maxi("volume_defect", vol)
     if not np.isfinite(d) or d > TOL:
         obs.violation(f"not-symplectic:{iname}:{sname}",
-                      f"max |J^T Omega J - Omega| = {d:.3e} over {case['n']} step(s), eps={eps:.4g}; sys={spec} int={ispec}")
+                      f"max |J^T Omega J - Omega| = {d:.3e} over {case['n']} step(s), eps={eps:.4g}, start states "
+                      f"{'fresh' if how == 'fresh' else 'with a history (' + how + ')'}; sys={spec} int={ispec}")
     fc = "small" if case["frac"] < 0.08 else ("mid" if case["frac"] < 0.4 else "large")
     obs.token(spec["sys"], spec.get("metric", spec.get("constr", spec.get("generic", "-"))), ispec["int"], intgen.stages(ispec),
-              ispec.get("solver", "-"), ispec.get("n_inner_step", 0), fc, case["n"])
+              ispec.get("solver", "-"), ispec.get("n_inner_step", 0), fc, case["n"], how)
     obs.sample({"sys": spec["sys"], "int": ispec, "eps": eps, "n": case["n"], "defect": d})
